@@ -34,6 +34,13 @@ def sync_fn(F):
     return None
 
 
+def apply_op_fn(F):
+    """role: the taskdb function (txn, &SyncOp) -> Result<()> that applies one synchronised operation"""
+    import roles
+    c = roles.fn_by_sig(F, r"dyn storage::StorageTxn.*&server::op::SyncOp$", r"std::result::Result<\(\),", r"^taskdb::")
+    return c[0] if len(c) == 1 else None
+
+
 def rebase_fn(F):
     tr = r_transform.find_transform(F)
     if len(tr) != 1:
@@ -65,7 +72,10 @@ class SyncCtx:
         self.sync_complete = calls_matching(c, re.escape(TXN) + "::sync_complete$")
         self.commit = calls_matching(c, re.escape(TXN) + "::commit$")
         self.basever = calls_matching(c, re.escape(TXN) + "::base_version$")
-        self.make_snapshot = calls_matching(c, r"taskdb::snapshot::make_snapshot$")
+        import roles
+        mkf = roles.make_snapshot_fn(F)
+        self.make_snapshot = calls_matching(c, "^" + re.escape(mkf) + "$") if mkf else []
+        self.make_snapshot_fn = mkf
         self.add_snapshot = calls_matching(c, re.escape(SERVER) + "::add_snapshot$")
         rb = rebase_fn(F)
         self.rebase_body = rb
@@ -621,7 +631,7 @@ def rule_N1(F, R):
             R.violation("N1", x.subj, "snapshot-label", "add_snapshot is labelled with something other than the id just returned by add_version", where(x.b, i))
         else:
             R.ok("N1", "add_snapshot(accepted id, ..)", where(x.b, i))
-        s2 = fl.slice_operand(t["args"][2], stop=lambda t: any(n.endswith("snapshot::make_snapshot") for n in call_names(t)))
+        s2 = fl.slice_operand(t["args"][2], stop=lambda t: x.make_snapshot_fn is not None and x.make_snapshot_fn in call_names(t))
         if not any(r[0] == "call" and r[1] in {k for k, _t in x.make_snapshot} for r in s2.roots):
             R.violation("N1", x.subj, "snapshot-payload", "add_snapshot payload does not derive from make_snapshot", where(x.b, i))
         else:
@@ -750,11 +760,12 @@ def rule_S5(F, R):
         return
     c = cfg_of(rb)
     fl = flow_of(rb)
-    aps = calls_matching(c, r"taskdb::apply::apply_op$")
+    apf = apply_op_fn(F)
+    aps = calls_matching(c, "^" + re.escape(apf) + "$") if apf else []
     if not R.floor("S5", "apply_op call sites in the rebase function", len(aps), 1):
         return
     apb = {i for i, _t in aps}
-    stop = lambda t: any(n.endswith("apply::apply_op") for n in call_names(t))
+    stop = lambda t: apf in call_names(t)
     bad = False
     for (i, t) in c.calls():
         if "std::ops::Try::branch" in call_names(t):
@@ -841,10 +852,10 @@ def rule_S4(F, R):
     m = 0
     for p in tails:
         m += 1
-        ap = [e for e in p.events if any(nm.endswith("apply::apply_op") for nm in e["names"])]
+        ap = [e for e in p.events if apply_op_fn(F) in e["names"]]
         pushes = [e for e in p.events if any(nm.endswith("Vec::<T, A>::push") for nm in e["names"])]
         some = [o for (a, o, _bb) in p.atoms if a[0] == "variant" and o in ("Some", "None")]
-        desc = show_path(p, interesting=lambda e: any(nm.endswith("apply::apply_op") or nm.endswith("::push") for nm in e["names"]))
+        desc = show_path(p, interesting=lambda e: apply_op_fn(F) in e["names"] or any(nm.endswith("::push") for nm in e["names"]))
         if some and some[0] == "Some":
             if not ap or not pushes:
                 R.violation("S4", rb["owner_fn"], "surviving-server-op-not-applied", "a surviving server operation is not both applied and recorded: %s" % desc, where(rb, p.blocks[0]))
